@@ -7,6 +7,7 @@ pub enum AnchorKind {
     Before,
     After,
     AtEnd,
+    AtStart,
 }
 
 #[derive(Clone, Debug)]
@@ -54,6 +55,12 @@ pub struct FnDirective {
     /// (`Iterator::chain` / `Iterator::cloned`: a second `external_trait_specification` on `Iterator` is a definition cycle, `assume_specification`
     /// is refused for trait methods). Unlike R19 the STRUCTURE of the expression stays under proof: RECV and ARGS are visited as usual.
     pub method_as: Vec<(String, String)>,
+    /// R29 (opt-in, `//@ unroll-array-all-any`): `[E1, .., Ek].iter().all(|PAT| P)` (k <= 8, PAT = `&x` or `x`) is rewritten to the conjunction it
+    /// denotes by the definition of `Iterator::all` in core (evaluate the predicate on the elements in order, stop at the first `false`):
+    ///     `{ let vx_e1 = E1; ..; let vx_ek = Ek; ({ let x = vx_e1; P }) && .. && ({ let x = vx_ek; P }) }`      (`let x = &vx_ei;` for PAT = `x`)
+    /// and `.any(..)` to the corresponding `||` chain. Verus accepts `Iterator::all` / `any` but vstd gives their result no specification, and a
+    /// reference pattern in a closure parameter is rejected ("only variables are supported here"). Logged; inert when no such expression occurs.
+    pub unroll_all_any: bool,
     /// R8 (opt-in, `//@ allow-unsafe`): `unsafe { B }` -> `{ B }`, and `use core::arch::..::X;` items directly inside such a block are
     /// deleted so that the intrinsic name `X` resolves to the template's shim model of it (the unit's stated modelling assumption)
     pub allow_unsafe: bool,
@@ -296,6 +303,7 @@ fn parse_fn_block(name_line: &str, lines: &[(bool, String)]) -> FnDirective {
                     _ => die("call-as needs <callee path> <fn>"),
                 }
             }
+            "unroll-array-all-any" => curfn!().unroll_all_any = true,
             "method-as" => {
                 let mut it = rest.split_whitespace();
                 match (it.next(), it.next()) {
@@ -401,6 +409,13 @@ fn parse_fn_block(name_line: &str, lines: &[(bool, String)]) -> FnDirective {
             "at-end" => {
                 let f = curfn!();
                 f.anchors.push(Anchor { kind: AnchorKind::AtEnd, pat: String::new(), nth: 1, lines: vec![] });
+                tgt = Target::Anchor(f.anchors.len() - 1);
+            }
+            "at-start" => {
+                // right after the opening brace of the body (for `hide(..)`/`reveal(..)` headers, which Verus wants first):
+                // independent of what the first statement of the source is
+                let f = curfn!();
+                f.anchors.push(Anchor { kind: AnchorKind::AtStart, pat: String::new(), nth: 1, lines: vec![] });
                 tgt = Target::Anchor(f.anchors.len() - 1);
             }
             "inner" => {
